@@ -187,6 +187,14 @@ def run(chk):
                 ok_items = same_items(items(layer, R), exp, TT)
                 ok_eq = (R == E) and (E == R) and not (R != E)
                 ok_hash = layer == "Quantity" or hash(R) == hash(E)
+                # ... and only then: against each operand, == holds exactly when the exponents are the same (hash(-1) == hash(-2) in CPython)
+                ok_neq = True
+                for O, o in ((X, x), (Y, y), (Z, z)):
+                    if layer == "Quantity" or type(O) is not type(R):
+                        continue
+                    same_o = {n: F(e) for n, e in o.items() if e != 0} == {n: F(e) for n, e in exp.items() if e != 0}
+                    if bool(R == O) != same_o or bool(R != O) == same_o:
+                        ok_neq = False
                 ok_comm = R2 is None or (R2 == R and same_items(items(layer, R2), exp, TT))
                 ok_imm = before == after
                 ok_dim = True
@@ -201,7 +209,7 @@ def run(chk):
                              "k": k if op == "pow" else None},
                             {"op": op, "x": x, "y": y, "z": z, "k": k, "expected": exp, "error": repr(e)})
                 continue
-            for clause, ok in (("result", ok_items), ("eq", ok_eq), ("hash", ok_hash), ("commutative/associative", ok_comm),
+            for clause, ok in (("result", ok_items), ("eq", ok_eq), ("eq-only-when-same", ok_neq), ("hash", ok_hash), ("commutative/associative", ok_comm),
                                ("operands-unchanged", ok_imm), ("dimensionality", ok_dim)):
                 if not ok:
                     cls = "pow0" if (op == "pow" and k == 0) else ("cancel" if len(exp) < len(set(x) | set(y) | set(z)) else "plain")
